@@ -111,8 +111,12 @@ namespace G1
 def smul (k : Nat) (p : G1) : G1 := ((J1.ofAffine p).mul k).toAffine
 /-- in the prime-order subgroup: on curve and `[r]P = O` -/
 def torsionFree (p : G1) : Bool := (smul R p) == .inf
+/-- Σ kᵢ·Pᵢ, one shared doubling chain (Straus) -/
 def msum (ps : List (Nat × G1)) : G1 :=
-  (ps.foldl (fun acc (k, p) => acc.add ((J1.ofAffine p).mul k)) J1.inf).toAffine
+  let js := ps.map fun (k, p) => (k % R, J1.ofAffine p)
+  ((List.range 255).foldl (fun acc i =>
+    let acc := acc.double
+    js.foldl (fun acc (k, pj) => if bit k (254 - i) == 1 then acc.add pj else acc) acc) J1.inf).toAffine
 end G1
 
 /-! ### bytes -/
@@ -225,11 +229,46 @@ def add : G2 → G2 → G2
       let l := (y2.sub y1).mul ((x2.sub x1).inv)
       let x3 := ((l.sq).sub x1).sub x2
       .aff x3 ((l.mul (x1.sub x3)).sub y1)
-/-- double-and-add (affine; only used for a handful of points per request) -/
+/-- Jacobian coordinates over `F_p²` (same formulas as `J1`) -/
+structure J2 where
+  x : Fp2
+  y : Fp2
+  z : Fp2
+  deriving Inhabited
+
+namespace J2
+def inf : J2 := ⟨Fp2.one, Fp2.one, Fp2.zero⟩
+def double (p : J2) : J2 :=
+  if p.z.isZero || p.y.isZero then inf else
+  let a := p.x.sq; let b := p.y.sq; let c := b.sq
+  let d := (((p.x.add b).sq.sub a).sub c).scale 2
+  let e := a.scale 3; let f := e.sq
+  let x3 := f.sub (d.scale 2)
+  ⟨x3, (e.mul (d.sub x3)).sub (c.scale 8), (p.y.scale 2).mul p.z⟩
+def add (p q : J2) : J2 :=
+  if p.z.isZero then q else if q.z.isZero then p else
+  let z1z1 := p.z.sq; let z2z2 := q.z.sq
+  let u1 := p.x.mul z2z2; let u2 := q.x.mul z1z1
+  let s1 := (p.y.mul q.z).mul z2z2; let s2 := (q.y.mul p.z).mul z1z1
+  if u1 == u2 then (if s1 == s2 then double p else inf) else
+  let h := u2.sub u1; let i := (h.scale 2).sq; let j := h.mul i
+  let r := (s2.sub s1).scale 2; let v := u1.mul i
+  let x3 := (r.sq.sub j).sub (v.scale 2)
+  ⟨x3, (r.mul (v.sub x3)).sub ((s1.mul j).scale 2), (((p.z.add q.z).sq.sub z1z1).sub z2z2).mul h⟩
+end J2
+
+/-- double-and-add in Jacobian coordinates -/
 def smul (k : Nat) (p : G2) : G2 :=
-  (List.range 256).foldl (fun acc i =>
-    let acc := acc.add acc
-    if bit k (255 - i) == 1 then acc.add p else acc) .inf
+  match p with
+  | .inf => .inf
+  | .aff x y =>
+    let pj : J2 := ⟨x, y, Fp2.one⟩
+    let r := (List.range 256).foldl (fun acc i =>
+      let acc := acc.double
+      if bit k (255 - i) == 1 then acc.add pj else acc) J2.inf
+    if r.z.isZero then .inf else
+    let zi := r.z.inv; let zi2 := zi.sq
+    .aff (r.x.mul zi2) (r.y.mul (zi2.mul zi))
 def torsionFree (p : G2) : Bool := smul R p == .inf
 
 /-- compressed G2: 96 bytes, `c1` first then `c0`, flags in byte 0 -/
